@@ -255,7 +255,7 @@ unsafe fn drop_cycle<T>(cycle: HashMap<Link<T>, usize>) {
         // deallocate. This allows us to bust the cycle detection by clearing
         // all links.
         let rcbox = ptr.as_ptr();
-        let cycle_strong_refs = {
+        {
             let mut links = (*rcbox).links().borrow_mut();
             links
                 .extract_if(|link, _| {
@@ -265,14 +265,17 @@ unsafe fn drop_cycle<T>(cycle: HashMap<Link<T>, usize>) {
                         false
                     }
                 })
-                .map(|(link, count)| {
-                    if let Kind::Forward = link.kind() {
-                        count
-                    } else {
-                        0
-                    }
-                })
-                .sum::<usize>()
+                .for_each(drop);
+        }
+        // `refcount` is the number of strong references to this object that
+        // are owned by members of the cycle, i.e. the references that go away
+        // with the cycle. This is not the number of references this object
+        // holds to other members: the two differ whenever an object is adopted
+        // more (or less) often than it adopts.
+        let cycle_strong_refs = if let Kind::Forward = ptr.kind() {
+            refcount
+        } else {
+            0
         };
 
         // To be in a cycle, at least one `value` field in an `RcBox` in the
